@@ -65,4 +65,8 @@ class StochasticFiniteStateController(POMDPPolicy):
     def next_agentstate(self, ag : AgentState, a : Action, o : Observation) -> AgentState:
         oi = self.pomdp.observation_index[o]
         ai = self.pomdp.action_list.index(a)
+        # The action was sampled from the mixture of the nodes' action strategies, so
+        # first condition the distribution over nodes on the action that was taken.
+        ag = ag * self.action_strategy[:, ai]
+        ag = ag / ag.sum()
         return ag @ self.observation_strategy[:, ai, oi]
